@@ -87,6 +87,8 @@ def check_C14(tier, seed):
     chosen = props.sample(sorted(ops), 700 if quick else 80000, r)
     scripts += [scen_c14.ops_script(r, len(scripts) + i, o) for i, o in enumerate(chosen)]
     scripts += [scen_c14.natural_script(r, len(scripts) + i) for i in range(200 if quick else 8000)]
+    # reuse across the periods of the reuse log
+    scripts += [scen_c14.replay_periods_script(r, len(scripts) + i) for i in range(250 if quick else 5000)]
     mcs = [("Tokens.tla", "MC_Tokens.cfg" if quick else "MC_Tokens3.cfg"),
            ("TokenClient.tla", "MC_TokenClient.cfg"), ("TokenClient.tla", "MC_TokenClient_impl.cfg"),
            ("TokenCache.tla", "MC_TokenCache_02.cfg"), ("TokenCache.tla", "MC_TokenCache_11.cfg"),
